@@ -81,6 +81,11 @@ def fingerprint(node: t.Any, mode: str = "exact"):
             continue
         items.append((k, _val(v, mode, False)))
     typ = getattr(node, "_type", None)
+    if mode == "serde":
+        # the public type (for casts that is `_type or to`), which is what serde transports
+        typ = node.type
+        if typ is node:
+            typ = None
     meta = getattr(node, "_meta", None)
     comments = getattr(node, "comments", None)
     if mode == "serde":
